@@ -60,9 +60,11 @@ class Case:
         sp = self.spec
         g = nx.DiGraph()
         nspat = self.ndim - 1
+        tdt = sp.get("time_dtype")
         for n in sp["nodes"]:
             nid, t = n["id"], n["time"]
-            attrs: dict[str, Any] = {"time": t}
+            # frame indices as they come out of numpy code (np.arange(..., dtype=np.uint16) …)
+            attrs: dict[str, Any] = {"time": np.dtype(tdt).type(t) if tdt else t}
             if self.cfg == "pos":
                 attrs["pos"] = [float(n["pos"])] * nspat
             elif self.cfg == "axes":
@@ -82,7 +84,12 @@ class Case:
         seg = None
         if self.cfg == "seg":
             seg = np.array(sp["seg"], dtype=np.dtype(sp.get("seg_dtype", "int64"))).reshape(self.shape)
-        kw: dict[str, Any] = dict(segmentation=seg, scale=self.scale, ndim=self.ndim)
+        scale_obj: Any = self.scale
+        if self.scale is not None and sp.get("scale_type") == "tuple":
+            scale_obj = tuple(self.scale)
+        elif self.scale is not None and sp.get("scale_type") == "ndarray":
+            scale_obj = np.array(self.scale, dtype=float)
+        kw: dict[str, Any] = dict(segmentation=seg, scale=scale_obj, ndim=self.ndim)
         if self.cfg == "axes":
             kw["pos_attr"] = axis_names(self.ndim)
         tracks = SolutionTracks(g, **kw)
@@ -114,7 +121,7 @@ class Case:
                 for _n in g2.nodes:
                     g2.nodes[_n].pop(f0.lineage_key, None)   # such files carry no lineage attribute
             seg2 = None if tracks.segmentation is None else tracks.segmentation.copy()
-            tracks = SolutionTracks(g2, segmentation=seg2, scale=self.scale, ndim=self.ndim, features=fd)
+            tracks = SolutionTracks(g2, segmentation=seg2, scale=scale_obj, ndim=self.ndim, features=fd)
         tracks._verif_id_base = sp.get("id_base", 0)  # harness-side hint for fresh id choices
         return tracks
 
